@@ -36,13 +36,24 @@ WRITE_MODES = ('w', 'a', 'x', '+')
 def _open_calls(fn):
     """(call, path expr, mode string|None) for open()/gzip.open()/io.open() calls."""
     out = []
+    OPENERS = ('open', 'gzip.open', 'io.open', 'bz2.open', 'lzma.open', 'codecs.open')
+    # local aliases: opener = open if ... else gzip.open
+    alias = set()
+    for n in walk_no_nested(fn):
+        if isinstance(n, ast.Assign) and len(n.targets) == 1 and isinstance(n.targets[0], ast.Name):
+            vals = [n.value.body, n.value.orelse] if isinstance(n.value, ast.IfExp) else [n.value]
+            try:
+                if all(ast.unparse(v) in OPENERS for v in vals):
+                    alias.add(n.targets[0].id)
+            except Exception:
+                pass
     for n in walk_no_nested(fn):
         if isinstance(n, ast.Call):
             try:
                 d = ast.unparse(n.func)
             except Exception:
                 continue
-            if d in ('open', 'gzip.open', 'io.open', 'bz2.open', 'lzma.open', 'codecs.open') and n.args:
+            if (d in OPENERS or d in alias) and n.args:
                 mode = None
                 if len(n.args) > 1 and isinstance(n.args[1], ast.Constant):
                     mode = n.args[1].value
@@ -114,7 +125,8 @@ def _r121(ctx: Ctx) -> None:
             uncond.append(r)
     ctx.ob('R12.1', site_of(mi, good[0]) if good else site, 'save_json: os.replace(temp, destination) on every normal exit',
            len(uncond) >= 1 and _writes_precede(fn, opens, uncond[0] if uncond else None),
-           'the destination is not (unconditionally) replaced by the completely written temporary file',
+           'the destination is not (unconditionally) replaced by the completely written AND CLOSED temporary file (a '
+           'replace inside the writing `with` block renames a file whose buffers are not flushed yet)',
            key='save_json|replace', facts=[ast.unparse(r) for r in reps])
     # the destination is never deleted / moved away: between the deletion and the rename neither the old nor the
     # new results exist
@@ -147,9 +159,24 @@ def _r121(ctx: Ctx) -> None:
 
 
 def _writes_precede(fn, opens, replace_call) -> bool:
+    """Every writer of the temporary file is finished - its `with` block closed - before the replace."""
     if replace_call is None:
         return False
-    return all(c.lineno < replace_call.lineno for c, _, _ in opens)
+    pm = parent_map(fn)
+    for c, _, _ in opens:
+        if c.lineno >= replace_call.lineno:
+            return False
+        # the with statement (or plain statement) that holds the open call
+        cur = c
+        holder = None
+        while cur in pm and pm[cur] is not fn:
+            cur = pm[cur]
+            if isinstance(cur, (ast.With, ast.AsyncWith)) and any(c in ast.walk(i.context_expr) for i in cur.items):
+                holder = cur
+                break
+        if holder is not None and any(x is replace_call for x in ast.walk(holder)):
+            return False          # replaced while the file is still open: buffered data are written after the rename
+    return True
 
 
 def _pathlike(e: ast.AST) -> bool:
